@@ -208,11 +208,7 @@ func sandboxFamily(w *World, prop string) ([]*Obligation, []string) {
 		}
 		nfuncs++
 		base := w.Contracts.ByName[name]
-		ct := &Contract{Kind: "func", Name: name, LoopInv: map[int][]*CExpr{}, LoopDec: map[int]*CExpr{}, Nilable: map[string]bool{}, NonNil: map[string]bool{}, Flags: map[string]string{}}
-		if base != nil {
-			ct.Requires = base.Requires
-			ct.Nilable, ct.NonNil, ct.Flags = base.Nilable, base.NonNil, base.Flags
-		}
+		ct := deriveContract(base, name)
 		fx := newFnExec(w, fn, ct)
 		// rely: no function switches the flag of an existing context off (guaranteed by the sbx-store
 		// obligations of every function)
